@@ -6,6 +6,7 @@ import LuaHelper.Driver.ParseOps
 import LuaHelper.Driver.GrammarOps
 import LuaHelper.Driver.ScopeOps
 import LuaHelper.Driver.HovOps
+import LuaHelper.Driver.PatOps
 open LuaHelper
 
 def dispatch (cmd : String) (args : List String) : String :=
@@ -28,6 +29,9 @@ def dispatch (cmd : String) (args : List String) : String :=
   | some r => r
   | none =>
   match HovOps.handle cmd args with
+  | some r => r
+  | none =>
+  match PatOps.handle cmd args with
   | some r => r
   | none => "bad-op"
 
